@@ -533,3 +533,16 @@ Theorem C07_cache_example :
    cinv_b KBdd ex_terms 2 (kc ok_mid) = true).
 Proof. exact (conj ok_run (conj ok_mid_run (conj ok_mid_inv ok_mid_checks))). Qed.
 Print Assumptions C07_cache_example.
+
+(* the compressed log (runs of consecutive buckets locked / unlocked by the collector are one
+   line of the harness' log): the compressed replay IS the plain replay of the expanded log, hence
+   accepts only logs that keep the log-level invariant *)
+Theorem C07_cache_clog_expand : forall k terms nl log l, (forall a, In a log -> cwf a) ->
+  clrun k terms nl l log = lrun k terms nl l (flat_map cexpand log).
+Proof. exact clrun_expand. Qed.
+Print Assumptions C07_cache_clog_expand.
+
+Theorem C07_cache_clog_inv : forall k terms nl log l l',
+  LInv k terms nl l -> clrun k terms nl l log = Some l' -> LInv k terms nl l'.
+Proof. exact clrun_inv. Qed.
+Print Assumptions C07_cache_clog_inv.
